@@ -12,7 +12,7 @@ NPROC = int(os.environ.get("PK_JOBS", "16"))
 
 COQ_TIMEOUT = 1500
 # harness binaries that checks also run on a non-release cargo profile (built by ./pkv setup too)
-EXTRA_PROFILES = {"ceremony": ["debug"], "psl": ["debug"]}
+EXTRA_PROFILES = {"ceremony": ["debug"], "psl": ["debug"], "robust": ["debug"]}
 ALLOWED_AXIOMS = {
     # standard-library axioms that may appear in Print Assumptions; each must be named in DESIGN.md §7
     # (none needed so far)
